@@ -74,3 +74,10 @@ pub struct Error { pub variant: ErrorVariant, pub expr_span: Span, pub assignmen
 pub open spec fn spec_is_read_only(c: CompileConfig, path: OwnedTargetPath) -> bool {
     exists|k: int| 0 <= k < c.read_only_paths@.len() && blocked(#[trigger] c.read_only_paths@[k], path, |a: OwnedSegment, p: OwnedSegment| seg_may_alias(a, p))
 }
+
+// BTreeSet::insert on the entry set (std): the set afterwards is the old set plus the new entry
+pub open spec fn has_entry(s: Seq<ReadOnlyPath>, e: ReadOnlyPath) -> bool { exists|k: int| 0 <= k < s.len() && s[k] == e }
+#[verifier::external_body]
+pub fn set_insert(set: &mut Vec<ReadOnlyPath>, e: ReadOnlyPath)
+    ensures has_entry(final(set)@, e), forall|x: ReadOnlyPath| has_entry(old(set)@, x) ==> has_entry(final(set)@, x),
+{ unimplemented!() }
